@@ -39,8 +39,10 @@ def dump_mir(scratch):
 
 
 class Obligation:
-    def __init__(self, name, decls, assumptions, goal, functions=(), note="", expect="unsat"):
+    def __init__(self, name, decls, assumptions, goal, functions=(), note="", expect="unsat", native=None, native_py=None):
+        self.native_py = native_py  # fn(scratch) -> dict(reproduced, detail, signature): a native scenario run by Python
         self.expect = expect
+        self.native = native      # (mount file, fn(model) -> rust test body) for replaying a model natively
         self.name = name
         self.decls = decls
         self.assumptions = assumptions
@@ -158,7 +160,7 @@ def run_unit(u, scratch, pid):
                 res.n_unsat += 1
             elif verdict == "sat":
                 model = next(r[2] for r in ob.results.values() if r[0] == "sat")
-                res.cls["candidates"].append(dict(kind="smt-model", desc="KV-%s: %s" % (pid, ob.name), model=model, obligation=ob.name))
+                res.cls["candidates"].append(dict(kind="smt-model", desc="KV-%s: %s" % (pid, ob.name), model=model, obligation=ob.name, ob=ob))
                 res.cls["verdict"] = "violated"
             else:
                 if res.cls["verdict"] != "violated":
@@ -169,3 +171,47 @@ def run_unit(u, scratch, pid):
         res.cls["reasons"].append("MIR translation failed (the function's shape changed?): %r" % (e,))
     res.wall_s = time.time() - t0
     return res
+
+
+def native_replay(pid, rec, scratch):
+    """Evaluate the real function natively on the solver's model (a generated #[test] in a child module)."""
+    import json
+    from . import replay as replay_mod
+    cands = rec["cls"]["candidates"]
+    os.makedirs(os.path.join(replay_mod.REPLAY_DIR, pid), exist_ok=True)
+    path = os.path.join(replay_mod.REPLAY_DIR, pid, rec["unit"].name + ".json")
+    for c in cands:
+        ob = c.get("ob")
+        if ob is not None and ob.native_py is not None:
+            out = ob.native_py(scratch)
+            doc = dict(property=pid, mode="native-scenario", unit=rec["unit"].name, obligation=ob.name, native=out)
+            json.dump(doc, open(path, "w"), indent=1, default=str)
+            return dict(reproduced=out["reproduced"], mode="native-scenario", path=path, detail=out["detail"][:500],
+                        signature=dict(out.get("signature", {}), unit=rec["unit"].name, obligation=ob.name, assertions=[ob.name]))
+        if ob is None or ob.native is None:
+            continue
+        mount, gen = ob.native
+        model = c["model"] or {}
+        body = gen(model)
+        if body is None:
+            continue
+        test_file = os.path.join(scratch.dir, "kv_native_%d.rs" % abs(hash(ob.name)))
+        open(test_file, "w").write("use super::*;\n#[test]\nfn kv_native_replay() {\n%s\n}\n" % body)
+        target = os.path.join(scratch.dir, mount)
+        src0 = open(target).read()
+        open(target, "a").write('\n#[cfg(test)] #[path = "%s"] mod kv_native_replay_mod;\n' % test_file)
+        results = {}
+        try:
+            for profile, flag in (("dev", []), ("release", ["--release"])):
+                p = subprocess.run(["cargo", "test", "--offline", "--lib", "--target-dir", os.path.join(scratch.dir, "td-native")] + flag +
+                                   ["kv_native_replay"], cwd=scratch.dir, env=core.ENV, stdout=subprocess.PIPE, stderr=subprocess.STDOUT, timeout=1800)
+                out = p.stdout.decode(errors="replace")
+                results[profile] = dict(failed=("panicked at" in out and "FAILED" in out), tail=out[-600:])
+        finally:
+            open(target, "w").write(src0)
+        reproduced = all(v["failed"] for v in results.values())
+        doc = dict(property=pid, mode="native-eval", unit=rec["unit"].name, obligation=ob.name, model=model, test=body, native=results)
+        json.dump(doc, open(path, "w"), indent=1)
+        return dict(reproduced=reproduced, mode="native-eval", path=path, signature=dict(unit=rec["unit"].name, obligation=ob.name, assertions=[ob.name]),
+                    detail="; ".join("%s: %s" % (k, "panicked" if v["failed"] else "passed") for k, v in results.items()))
+    return dict(reproduced=False, mode="native-eval", path=path, detail="no native evaluation recipe for: %s" % ", ".join(c.get("obligation", "?") for c in cands))
